@@ -12,6 +12,7 @@ fn c01_space(cx: &Ctx) -> (Space, Vec<char>, usize) {
         (
             Space::new()
                 .exh("core", space::fancy_grammar(space::core_atoms()), 4)
+                .exh("extended", space::fancy_grammar(space::extended_atoms()), 3)
                 .ctxfill(3, 1, &|_| true),
             spaces::sigma4(),
             3,
